@@ -454,7 +454,7 @@ def rule_m8(F):
     type's drop function on it (it owns the element: contains_owned, index_owned, ...) does so on every path to its return - the
     only way around the call is the `None` side of `if let Some(drop_fn)` (element types without drop glue)."""
     from ..report import RuleResult as RR
-    r = RR("C15.M8", "functions that own an element they are given drop it on every return path", floor=2)
+    r = RR("C15.M8", "functions that own an element they are given drop it on every return path", floor=1)
     for b in F.bodies_in(["src/value/list.rs"]):
         if not b.mir or "::tests::" in b.path:
             continue
